@@ -16,6 +16,8 @@ Definition st_SignedAdd_co W I :=
 Definition st_SignedAdd_ci_co W I :=
   [spec_sadd (gi W 0) (gi W 1) (gi W 3) (gi I 0) (gi I 1) (gi I 2); spec_sadd_co (gi W 0) (gi W 1) (gi W 3) (gi I 0) (gi I 1) (gi I 2)].
 
+Definition st_SubBorrowIn W I := [spec_sub_borrow (gi W 3) (gi I 0) (gi I 1) (gi I 2)].
+
 (* W = [wa; wb; wr] *)
 Definition st_Sub W I := [spec_sub (gi W 2) (gi I 0) (gi I 1)].
 Definition st_SignedSub W I := [spec_ssub (gi W 0) (gi W 1) (gi W 2) (gi I 0) (gi I 1)].
